@@ -84,6 +84,8 @@ def regenerate(ctx):
     text = pf2v.translate(core.GRIST)
   except pf2v.Untranslatable as e:
     raise core.TieBroken('predicate_formula / collector methods are outside the translated subset: %s' % e)
+  ctx.extra['pinned_glue'] = predgen.check_pinned_glue(['predicate_formula.parse_predicate_formula',
+                                                        'predicate_formula.parse_predicate_formula_json'])
   core.write_if_changed(os.path.join(core.COQ, 'gen', 'Predicate_gen.v'), text)
   ctx.extra['regenerated'] = ('coq/gen/Predicate_gen.v: %d definitions generated from predicate_formula.py, acl.py, '
                               'dropdown_condition.py, trigger_expression.py' % text.count('\nDefinition '))
